@@ -759,7 +759,7 @@ def analyse_tu(tu):
 
 def ghost_reads_in(tu, roots):
     """GHOST-READ findings of the pin typestate restricted to the functions named
-    in `roots` and the functions of the unit they call directly: the necessary
+    in `roots`, the functions of the unit they call directly and their callers: the necessary
     condition "what this machinery computes with is read from activated nodes"
     for properties other than C05.  Returns (findings, sorted function names)."""
     fns = set(r for r in roots if r in tu.funcs)
@@ -771,5 +771,12 @@ def ghost_reads_in(tu, roots):
                     fns.add(callee(c)[1])
                 except AnalysisError:
                     pass
+    # and their callers: a root that relies on its caller for the activation of
+    # an argument is reported at the call
+    roots_present = set(r for r in roots if r in tu.funcs)
+    for name, fn in tu.funcs.items():
+        if name not in fns and any(c.k == "CallExpr" and callee(c)[0] == "fn" and callee(c)[1] in roots_present
+                                   for c in fn.walk()):
+            fns.add(name)
     pr = analyse_tu(tu)
     return [f for f in pr["findings"] if f["rule"] == "GHOST-READ" and f.get("function") in fns], sorted(fns)
